@@ -98,6 +98,9 @@ def slim_event(e):
         return {k: v for k, v in e.items() if k not in ("tb", "tstate")}
     if e["k"] == "call" and e["api"] == "_env" and "identity" in e["intent"] and "serial" in e["intent"]["identity"]:
         return dict(e, intent=dict(e["intent"], identity=tla_identity(e["intent"]["identity"])))
+    if e["k"] == "call" and e["api"] == "_env" and "project" in e["intent"] and isinstance(e["intent"]["project"].get("templates"), dict):
+        P, mem = tla_project(e["intent"]["project"], e["intent"]["mem"])
+        return dict(e, intent={"project": P, "mem": mem})
     return e
 
 
